@@ -66,10 +66,31 @@ def deferred_adders(facts, adt):
         if facts.view in ('i', 'is', 'p', 'ps') and b.vis not in ('pub', None) and b.impl_trait is None:
             continue   # a private helper: in this view it is judged as part of each caller it is inlined into
         it = interp(facts, b)
-        sites = direct_adding_sites(facts, it, r['deferred'])
+        sites = [bb for bb in direct_adding_sites(facts, it, r['deferred']) if not _is_rebuild(it, bb, r['deferred'])]
         if sites:
             out.append((b, it, sites))
     return out
+
+
+def _is_rebuild(it, bb, field):
+    """The insertion at bb puts back an entry of the replica's OWN pending table that was taken out of self before the
+    loop (`for (c, k) in mem::take(&mut self.deferred) { .. self.deferred.insert(c, k) }`): an entry that is already pending is
+    re-filed (after being trimmed), no new remove is remembered.  Entries of another replica's table do not qualify."""
+    c = it.calls[bb]
+    vals = [a.val for a in c.args[1:]]
+    if not vals:
+        return False
+
+    def own_taken(src):
+        # the walked table is the old value of self.<field> (mem::take / replace hand out that very value; iterating the field in
+        # place while inserting into it does not borrow-check)
+        return param_path(iter_source(src)[0]) == (1, (field,))
+    for v in vals:
+        items = [st for st in subterms(versionless(v)) if st[0] == 'item' or (st[0] == 'field' and st[2] == 'Some.0' and is_call(st[1], 'next'))]
+        srcs = [st[1] if st[0] == 'item' else st[1][2][0] for st in items if (st[0] == 'item' or st[1][2])]
+        if not srcs or not all(own_taken(s_) for s_ in srcs):
+            return False
+    return True
 
 
 def rm_routines(facts, adt):
@@ -624,7 +645,22 @@ def def_take(ctx):
             elif not good_src:
                 ctx.fail(inst, b, 'the replay loop does not range over every entry of the taken pending table', line=block_line(it, replays[0]))
             else:
-                ctx.ok(inst, b, 'table taken, then every entry replayed through the remove routine', line=block_line(it, takes[0]))
+                # .. and every entry really is replayed: no iteration may skip the remove routine (an entry put back as it
+                # was is a pending remove nobody re-examines), and the loop runs to the end
+                from .loops import loop_of_block
+                skipped = None
+                for x in replays:
+                    lp = loop_of_block(it, x)
+                    if lp is None:
+                        continue
+                    inloop = [y for y in replays if y in lp.blocks]
+                    if lp.early_exits() or not lp.must(rc, inloop):
+                        skipped = x
+                if skipped is not None:
+                    ctx.fail(inst, b, 'an entry of the taken pending table can pass through the re-examination without being replayed through the '
+                             'remove routine (skipped or put back as it was)', line=block_line(it, skipped))
+                else:
+                    ctx.ok(inst, b, 'table taken, then every entry replayed through the remove routine', line=block_line(it, takes[0]))
 
 
 @rule('DEF-MERGE', {
